@@ -173,6 +173,7 @@ func (p *Parser) ParseReader(r io.Reader, args ...any) (data Node, err error) {
 
 			return
 		}
+		p.noff -= len(buf) - skip // offsets restart at 0 in the next buffer
 		skip = 0
 		if eof {
 			break
